@@ -35,6 +35,9 @@ BACKENDS = [
     ("kotlin", "kotlin", []),
     ("kotlin-finalizers", "kotlin", ["--config", "kotlin.use_finalizers_not_cleaners=true"]),
     ("nanobind", "nanobind", []),
+    # the same setting from two sources in two spellings: config.toml `[nanobind] lib-name` (kebab) and --config (snake)
+    ("nanobind-libname-two-sources", "nanobind", ["--config", "nanobind.lib_name=vsimfromcli"]),
+    ("kotlin-libname-two-sources", "kotlin", ["--config", "kotlin.lib_name=vsimfromcli", "--config", "kotlin.domain=dev.vsimcli"]),
     ("demo_gen", "demo_gen", []),
 ]
 
@@ -97,6 +100,15 @@ class Ctx:
             else:
                 with open(os.path.join(cdir, "config.toml"), "w") as f:
                     f.write('lib-name = "vsimlib"\n\n[kotlin]\ndomain = "dev.vsim"\n\n[demo-gen]\nrelative-js-path = "../js/"\n')
+            # language-scoped kebab-case spellings in the file, so that some backend configurations receive the
+            # same setting from two sources (the documented precedence must decide, never the hash order)
+            text = open(os.path.join(cdir, "config.toml")).read()
+            if "[nanobind]" not in text:
+                text += '\n\n[nanobind]\nlib-name = "vsimfromfile"\n'
+            if "[kotlin]" in text and "lib-name = \"vsimfromfilek\"" not in text:
+                text = text.replace("[kotlin]", '[kotlin]\nlib-name = "vsimfromfilek"', 1)
+            with open(os.path.join(cdir, "config.toml"), "w") as f:
+                f.write(text)
             self.corpora[name] = {"entry": entry, "dir": cdir, "states": {}}
         self.counters = {}
         self.seam = {"getrandom": 0, "clock": 0, "getpid": 0, "gethostname": 0, "heap_allocs": 0}
